@@ -1753,6 +1753,19 @@ int param_ffi_check_type(symtab * tab, param * param_value,
         /* these types are supported for ffi */
         break;
         case PARAM_TOUPLE:
+            if (param_value->touple.dims != NULL)
+            {
+                /* the members follow the same rules (records are resolved here) */
+                param_list_node * node = param_value->touple.dims->tail;
+                while (node != NULL)
+                {
+                    if (node->value != NULL)
+                    {
+                        param_ffi_check_type(tab, node->value, syn_level, result);
+                    }
+                    node = node->next;
+                }
+            }
         break;
         case PARAM_RECORD:
             param_enum_record_check_type(tab, param_value, syn_level, result);
